@@ -79,6 +79,12 @@ def drive(ctx, fmt, n_cases, precisions, hostile=True, fixture_precisions=(), ke
                 import contextlib
                 import io as _io
                 for k_, meth in enumerate(("write_to_file", "write_scenario_to_file", "write_to_file")):
+                    if k_ == 2 and i % 6 != 5:  # (3-D scenarios cannot be moved)
+                        # the scenario is edited between two writes of the same writer (moved as a whole): the next file
+                        # shows the scenario as it is now
+                        import numpy as _np
+                        sc.translate_rotate(_np.array([2.0, 1.0]), 0.0)
+                        ctx.feature("one-writer.scenario-edited-between-writes")
                     pth = io.tmpfile(".%s" % ("xml" if fmt == "xml" else "pb"))
                     ctx.evaluation()
                     with contextlib.redirect_stdout(_io.StringIO()):
